@@ -165,6 +165,19 @@ def ownership_counts_full : Prop :=
   ∀ ops : List AslModel.XmlOwn.Op, (AslModel.XmlOwn.run .init ops).fault = false ∧
     AslModel.XmlOwn.countsOK (AslModel.XmlOwn.run .init ops) = true
 
+/-- PROVED PART of `ownership_counts_full`: after any history a node is destroyed only with its count at zero, never
+    gets a count again (no resurrection through `<<`, `child`, `parent()` or a handle copy), and owns nothing (its child
+    array was released by `~_Xml`): the "freed while still counted" and "freed node still owning" halves of the counting
+    argument; that the count EQUALS the number of owners is the part that stays in `ownership_counts_full` -/
+theorem ownership_counts_partial (ops : List AslModel.XmlOwn.Op) (n : Nat)
+    (h : ((AslModel.XmlOwn.run .init ops).node n).live = false) :
+    ((AslModel.XmlOwn.run .init ops).node n).rc = 0 ∧ ((AslModel.XmlOwn.run .init ops).node n).kids = [] :=
+  AslProofs.XmlOwn.deadOK_run ops _ AslProofs.XmlOwn.deadOK_init n h
+
+/-- non-vacuity: an allocated node that was destroyed (`a` with child `b`, last handle of `a` dropped) -/
+example : ((AslModel.XmlOwn.run .init [.new 0, .new 1, .append 0 1, .drop 0]).node 0).live = false ∧
+    0 < (AslModel.XmlOwn.run .init [.new 0, .new 1, .append 0 1, .drop 0]).next := by decide
+
 /-- non-vacuity: `a << b` gives `b` a non-null parent (hypothesis satisfiable) ... -/
 example : ((AslModel.XmlOwn.run .init [.new 0, .new 1, .append 0 1]).node 1).parent = some 0 ∧
     (AslModel.XmlOwn.run .init [.new 0, .new 1, .append 0 1]).var 1 = some 1 := by decide
